@@ -121,7 +121,7 @@ func closed(t reflect.Type, tm map[string]reflect.Type, nm map[string]string) st
 }
 
 func rootIface(t reflect.Type) bool {
-	for t.Kind() == reflect.Slice || t.Kind() == reflect.Ptr {
+	for i := 0; i < 64 && (t.Kind() == reflect.Slice || t.Kind() == reflect.Ptr); i++ {
 		t = t.Elem()
 	}
 	return t.Kind() == reflect.Interface
@@ -145,7 +145,7 @@ var c16Types []reflect.Type
 
 func init() {
 	c16Types = append(c16Types, zoo.StructTypes...)
-	c16Types = append(c16Types, zoo.T(zoo.StrCarrier{}), zoo.T(zoo.TimeCarrier{}), zoo.T(zoo.IntLists{}), zoo.T(zoo.IntMapVals{}), zoo.T(zoo.FloatFields{}))
+	c16Types = append(c16Types, zoo.T(zoo.Tree{}), zoo.T(zoo.JMap{}), zoo.T(zoo.StrCarrier{}), zoo.T(zoo.TimeCarrier{}), zoo.T(zoo.IntLists{}), zoo.T(zoo.IntMapVals{}), zoo.T(zoo.FloatFields{}))
 }
 
 func mapKeys(m map[string]reflect.Type) []string {
@@ -179,6 +179,12 @@ func TestC16(t *testing.T) {
 				directFail(t, "C16", map[string]interface{}{"type": tt.String(), "entry": "TypeMapOf"}, "C16 TypeMapOf(%v): a second call returned %d entries, the first %d: the caller's changes to the first result leaked into it", tt, len(tm), len(keys))
 			}
 			for _, st := range reachable(tt).structs {
+				if st.Implements(codecNamable) {
+					wire := reflect.Zero(st).Interface().(hessian.CodecNamable).HessianCodecName()
+					if got, ok := tm[wire]; !ok || got != st {
+						directFail(t, "C16", map[string]interface{}{"type": tt.String(), "entry": "TypeMapOf"}, "C16 TypeMapOf(%v) does not map the wire name %q back to %v (has %v)", tt, wire, st, mapKeys(tm))
+					}
+				}
 				if got, ok := tm[st.Name()]; !ok || got != st {
 					directFail(t, "C16", map[string]interface{}{"type": tt.String(), "entry": "TypeMapOf"}, "C16 TypeMapOf(%v) lacks reachable struct type %v (has %v)", tt, st, mapKeys(tm))
 				}
@@ -207,7 +213,7 @@ func TestC16(t *testing.T) {
 			w.Elem().Set(g.Value(typ))
 		}
 		witness := w.Interface()
-		if !byPtr {
+		if !byPtr || typ.Kind() != reflect.Struct {
 			witness = w.Elem().Interface()
 		}
 		c.set("type", typ.Name())
@@ -255,6 +261,9 @@ func TestC16(t *testing.T) {
 			v2 := reflect.New(typ)
 			v2.Elem().Set(g2.Value(typ))
 			second := v2.Interface()
+			if typ.Kind() != reflect.Struct {
+				second = v2.Elem().Interface()
+			}
 			if _, perr := zoo.Project(second, nil); perr == nil {
 				c.set("second", zoo.Describe(second, 300))
 				if err := roundTripWith(second, tm, copyNames(nm)); err != nil {
